@@ -1144,6 +1144,8 @@ def d7_predicates(prog, rep):
             for z in subterms(cn):
                 if tag(z) == 'index' and tag(z[2]) != 'range' and z not in reads:      # distinct element reads
                     reads.append(z)
+            if len(reads) == 1 and not why and any(tag(z) == 'bin' and z[1] in ('Sub', 'Eq', 'Ne') and z[2] == z[3] == reads[0] for z in subterms(cn)):
+                why = 'an element is compared with itself (%s)' % show(reads[0])[:50]
             if len(reads) == 2:
                 a, b2 = reads
                 sa, sb = ix.split_stride(poly(a[2])), ix.split_stride(poly(b2[2]))
@@ -1152,7 +1154,13 @@ def d7_predicates(prog, rep):
                     why = '%s vs %s' % (pshow(poly(a[2]), show)[:60], pshow(poly(b2[2]), show)[:60])
                     if ok:
                         break
-        (rep.ok if ok else rep.viol)('predicate', key, 'compares element (i,j) with (j,i)' if ok else 'is_symmetric does not compare (i,j) with (j,i): %s' % why, site_of(f.body))
+        if ok:
+            rep.ok('predicate', key, 'compares element (i,j) with (j,i)')
+        elif why:
+            # a comparison of two element reads of the matrix was found in this body and is not the mirrored pair
+            rep.viol('predicate', key, 'is_symmetric does not compare (i,j) with (j,i): %s' % why, site_of(f.body))
+        else:
+            rep.undecided('predicate', key, 'no comparison of two element reads in the body of is_symmetric itself (kept in a helper / closure?)', site_of(f.body), proof=False)
     # triangular predicates: strict lower / upper part
     for name, part in (('is_upper_triangular', 'below'), ('is_lower_triangular', 'above')):
         k = M + '::' + name
